@@ -311,3 +311,9 @@ func vh_C17_histories3_Q() { vhC17Histories(3, false) }
 
 func vh_C17_versions3_Q()  { vhC17Histories(3, true) }
 func vh_C17_histories4_T() { vhC17Histories(4, false) }
+
+// C14: graph operations never panic
+func vh_C14_graph_Q() {
+	symxAssertionsOff()
+	vhC17Histories(3, true)
+}
